@@ -510,7 +510,9 @@ fn eval(rep: &mut Report, st: &mut Stats, seed: u64, peer_max: u64, local_max: u
         }
         Err(p) => {
             let loc = vcore::panics::short_location(&p.location);
-            let sig = if p.message.contains("packet overflow") { "C19.load.overflow".to_string() } else { format!("C19.panic:{loc}") };
+            // writes beyond the space the packet offered end in the target's assert or in bytes' "advance out of bounds"
+            let overflow = p.message.contains("packet overflow") || p.message.contains("advance out of bounds") || p.location.contains("/bytes-");
+            let sig = if overflow { "C19.load.overflow".to_string() } else { format!("C19.panic:{loc}") };
             rep.violation(sig, format!("panic in a {mode} history (peer max {peer_max}, local max {local_max}): {} at {loc}", p.message), json!({"kind": "c19", "cseed": seed, "peer_max": peer_max, "local_max": local_max, "ops": js}));
         }
     }
